@@ -192,42 +192,42 @@ static R5: &[Route] = &[ Route { id: 5, segs: &[Seg::S(b"a"), Seg::S(b"z")], blo
 static R6: &[Route] = &[ Route { id: 1, segs: &[Seg::S(b"ab")], blockers: NB_ }, Route { id: 3, segs: &[Seg::S(b"a"), Seg::S(b"b")], blockers: NB_ } ];
 static R7: &[Route] = &[ Route { id: 3, segs: &[Seg::P, Seg::P, Seg::P], blockers: NB_ } ];
 
-// @verif prop=C01 tier=quick timeout=1500 mem=14 unwindset="search_target\.0 :4;search_target\.1 :5" bounds="tree {/ab, /:p}; path 1..=5 bytes, '%' excluded"
+// @verif prop=C01 tier=quick timeout=1500 mem=8 unwindset="search_target\.0 :4;search_target\.1 :5" bounds="tree {/ab, /:p}; path 1..=5 bytes, '%' excluded"
 #[kani::proof]
 #[kani::unwind(10)]
 fn c01_search_static_vs_param() { check::<5>(&T1, R1, false, false) }
 
-// @verif prop=C01 tier=quick timeout=1500 mem=14 unwindset="search_target\.0 :4;search_target\.1 :5" bounds="tree {/, /b, /a, /a/:p}; path 1..=5 bytes"
+// @verif prop=C01 tier=thorough timeout=1500 mem=8 unwindset="search_target\.0 :4;search_target\.1 :5" bounds="tree {/, /b, /a, /a/:p}; path 1..=5 bytes"
 #[kani::proof]
 #[kani::unwind(10)]
 fn c01_search_root_and_nested_param() { check::<5>(&T2, R2, false, false) }
 
-// @verif prop=C01 tier=quick timeout=1500 mem=14 unwindset="search_target\.0 :4;search_target\.1 :5" bounds="compressed root /a/b with {/c, /:p}; path 1..=7 bytes"
+// @verif prop=C01 tier=thorough timeout=1500 mem=8 unwindset="search_target\.0 :4;search_target\.1 :5" bounds="compressed root /a/b with {/c, /:p}; path 1..=7 bytes"
 #[kani::proof]
 #[kani::unwind(10)]
 fn c01_search_compressed_root() { check::<7>(&T3, R3, false, false) }
 
-// @verif prop=C01 tier=quick timeout=1500 mem=14 unwindset="search_target\.0 :4;search_target\.1 :5" bounds="tree {/:p, /:p/a, /:p/:q}; path 1..=5 bytes, '%' free"
+// @verif prop=C01 tier=thorough timeout=1500 mem=8 unwindset="search_target\.0 :4;search_target\.1 :5" bounds="tree {/:p, /:p/a, /:p/:q}; path 1..=5 bytes, '%' free"
 #[kani::proof]
 #[kani::unwind(10)]
 fn c01_search_param_above_static() { check::<5>(&T4, R4, false, true) }
 
-// @verif prop=C01 tier=quick timeout=1500 mem=14 unwindset="search_target\.0 :4;search_target\.1 :5" bounds="tree {/a/z, /a/x, /:p/y}; path 1..=5 bytes; greedy result accepted where it differs (known finding c01-greedy-descent)"
+// @verif prop=C01 tier=quick timeout=1500 mem=8 unwindset="search_target\.0 :4;search_target\.1 :5" bounds="tree {/a/z, /a/x, /:p/y}; path 1..=5 bytes; greedy result accepted where it differs (known finding c01-greedy-descent)"
 #[kani::proof]
 #[kani::unwind(10)]
 fn c01_search_greedy_shape() { check::<5>(&T5, R5, true, false) }
 
-// @verif prop=C01 tier=quick timeout=1500 mem=14 unwindset="search_target\.0 :4;search_target\.1 :5" bounds="tree {/ab, /a/b}; path 1..=5 bytes"
+// @verif prop=C01 tier=thorough timeout=1500 mem=8 unwindset="search_target\.0 :4;search_target\.1 :5" bounds="tree {/ab, /a/b}; path 1..=5 bytes"
 #[kani::proof]
 #[kani::unwind(10)]
 fn c01_search_prefix_siblings() { check::<5>(&T6, R6, false, false) }
 
-// @verif prop=C01 tier=quick timeout=1500 mem=14 unwindset="search_target\.0 :4;search_target\.1 :5" bounds="tree {/:a/:b/:c}; path 1..=6 bytes"
+// @verif prop=C01 tier=quick timeout=1500 mem=8 unwindset="search_target\.0 :4;search_target\.1 :5" bounds="tree {/:a/:b/:c}; path 1..=6 bytes"
 #[kani::proof]
 #[kani::unwind(10)]
 fn c01_search_three_params() { check::<6>(&T7, R7, false, false) }
 
-// @verif prop=C01 tier=quick kind=witness finding=c01-greedy-descent timeout=1500 mem=14 unwindset="search_target\.0 :4;search_target\.1 :5" bounds="tree {/a/z, /a/x, /:p/y}; path 1..=5 bytes; strict backtracking oracle"
+// @verif prop=C01 tier=quick kind=witness finding=c01-greedy-descent timeout=1500 mem=8 unwindset="search_target\.0 :4;search_target\.1 :5" bounds="tree {/a/z, /a/x, /:p/y}; path 1..=5 bytes; strict backtracking oracle"
 #[kani::proof]
 #[kani::unwind(10)]
 fn c01_kf_greedy_descent() { check::<5>(&T5, R5, false, false) }
